@@ -179,3 +179,9 @@ func ConsAddrOfProtoKey(pk *tmprotocrypto.PublicKey) (string, error) {
 	}
 	return fmt.Sprintf("%X", []byte(ca)), nil
 }
+
+// KeyNameByAddr returns the harness name of the key with this consensus address ("" if the harness never
+// created it).
+func (w *World) KeyNameByAddr(addrHex string) string {
+	return w.Keys.NameByAddr(addrHex)
+}
